@@ -1,11 +1,762 @@
 package main
 
+// Counterexample replay: turn a solver model into a Go test that runs the
+// REAL function on the model's input and evaluates the contract in Go.
+
+import (
+	"bytes"
+	"context"
+	"fmt"
+	"go/types"
+	"math/big"
+	"os"
+	"os/exec"
+	"path/filepath"
+	"sort"
+	"strconv"
+	"strings"
+	"time"
+)
+
 type ReplayResult struct {
 	Failed   bool
 	Log      string
 	TestFile string
 }
 
-// tryReplay builds a Go test from the solver model and runs it against the
-// real code. (filled in later)
-func tryReplay(e *Engine, o *Obligation, model, dir string) *ReplayResult { return nil }
+// ---------------------------------------------------------------------
+// S-expressions
+
+type sexp struct {
+	atom string
+	list []*sexp
+}
+
+func parseSexps(s string) []*sexp {
+	var out []*sexp
+	i := 0
+	var parse func() *sexp
+	skip := func() {
+		for i < len(s) {
+			if s[i] == ';' {
+				for i < len(s) && s[i] != '\n' {
+					i++
+				}
+			} else if s[i] == ' ' || s[i] == '\n' || s[i] == '\t' || s[i] == '\r' {
+				i++
+			} else {
+				break
+			}
+		}
+	}
+	parse = func() *sexp {
+		skip()
+		if i >= len(s) {
+			return nil
+		}
+		if s[i] == '(' {
+			i++
+			n := &sexp{list: []*sexp{}}
+			for {
+				skip()
+				if i >= len(s) {
+					return n
+				}
+				if s[i] == ')' {
+					i++
+					return n
+				}
+				c := parse()
+				if c == nil {
+					return n
+				}
+				n.list = append(n.list, c)
+			}
+		}
+		if s[i] == '"' {
+			j := i + 1
+			for j < len(s) && s[j] != '"' {
+				j++
+			}
+			a := s[i : j+1]
+			i = j + 1
+			return &sexp{atom: a}
+		}
+		j := i
+		for j < len(s) && !strings.ContainsRune("() \n\t\r", rune(s[j])) {
+			j++
+		}
+		a := s[i:j]
+		i = j
+		return &sexp{atom: a}
+	}
+	for {
+		skip()
+		if i >= len(s) {
+			break
+		}
+		n := parse()
+		if n == nil {
+			break
+		}
+		out = append(out, n)
+	}
+	return out
+}
+
+func (e *sexp) String() string {
+	if e.list == nil {
+		return e.atom
+	}
+	var p []string
+	for _, c := range e.list {
+		p = append(p, c.String())
+	}
+	return "(" + strings.Join(p, " ") + ")"
+}
+
+// numeric value of a model value s-expression (Int or Real)
+func sexpRat(e *sexp) (*big.Rat, bool) {
+	if e.list == nil {
+		a := strings.TrimSuffix(e.atom, "?")
+		r, ok := new(big.Rat).SetString(a)
+		return r, ok
+	}
+	if len(e.list) == 2 && e.list[0].atom == "-" {
+		r, ok := sexpRat(e.list[1])
+		if !ok {
+			return nil, false
+		}
+		return r.Neg(r), true
+	}
+	if len(e.list) == 3 && e.list[0].atom == "/" {
+		a, ok1 := sexpRat(e.list[1])
+		b, ok2 := sexpRat(e.list[2])
+		if !ok1 || !ok2 || b.Sign() == 0 {
+			return nil, false
+		}
+		return a.Quo(a, b), true
+	}
+	if len(e.list) >= 2 && e.list[0].atom == "root-obj" {
+		return nil, false
+	}
+	return nil, false
+}
+
+// ---------------------------------------------------------------------
+// probes
+
+type probe struct {
+	term *Term
+	val  *sexp
+}
+
+type replayCtx struct {
+	x       *Exec
+	o       *Obligation
+	probes  []*probe
+	byTerm  map[string]*probe
+	bound   int
+	pkgName string
+	imports map[string]bool
+	helpers map[string]string
+	qual    types.Qualifier
+	regions map[string]*regionInfo // by region value
+	tmp     int
+}
+
+type regionInfo struct {
+	varName string
+	elem    *Ty
+	extent  int64
+	regTerm *Term
+	heap    string
+}
+
+func (rc *replayCtx) probe(t *Term) *probe {
+	if p, ok := rc.byTerm[t.String()]; ok {
+		return p
+	}
+	p := &probe{term: t}
+	rc.byTerm[t.String()] = p
+	rc.probes = append(rc.probes, p)
+	return p
+}
+
+// walkProbes registers every term whose value is needed to build a value
+// of type ty from term t. Returns the size constraints to add.
+func (rc *replayCtx) walkProbes(t *Term, ty *Ty, cons *[]*Term, depth int) bool {
+	x := rc.x
+	switch ty.K {
+	case TInt, TFloat, TReal, TBool, TBV32:
+		rc.probe(t)
+		return true
+	case TOpaque:
+		rc.probe(t)
+		return true
+	case TStruct:
+		for i, f := range ty.Struct.Fields {
+			if !rc.walkProbes(x.structGet(t, ty, i), f.Ty, cons, depth+1) {
+				return false
+			}
+		}
+		return true
+	case TPtr:
+		rc.probe(t)
+		if ty.Elem.K != TStruct && ty.Elem.K != TInt && ty.Elem.K != TFloat {
+			return false
+		}
+		hn, hs := ptrHeap(x.w.sortOf(ty.Elem, x.model))
+		h0, ok := x.heap0[hn]
+		if !ok {
+			h0 = x.sym.Const(hn+"@0", hs)
+		}
+		return rc.walkProbes(Select(h0, t), ty.Elem, cons, depth+1)
+	case TSlice:
+		if depth > 3 {
+			return false
+		}
+		switch ty.Elem.K {
+		case TInt, TFloat, TBool, TBV32:
+		default:
+			return false
+		}
+		rc.probe(slReg(t))
+		rc.probe(slOff(t))
+		rc.probe(slLen(t))
+		rc.probe(slCap(t))
+		b := IntLit(int64(rc.bound))
+		*cons = append(*cons, Le(Add(slOff(t), slCap(t)), b), Le(slLen(t), b))
+		hn, hs := elemHeap(x.w.sortOf(ty.Elem, x.model))
+		h0, ok := x.heap0[hn]
+		if !ok {
+			h0 = x.sym.Const(hn+"@0", hs)
+		}
+		for k := 0; k < rc.bound; k++ {
+			rc.probe(Select(Select(h0, slReg(t)), IntLit(int64(k))))
+		}
+		return true
+	}
+	return false
+}
+
+func (rc *replayCtx) value(t *Term) *sexp {
+	if p, ok := rc.byTerm[t.String()]; ok {
+		return p.val
+	}
+	return nil
+}
+
+func (rc *replayCtx) intValue(t *Term) (int64, bool) {
+	v := rc.value(t)
+	if v == nil {
+		return 0, false
+	}
+	r, ok := sexpRat(v)
+	if !ok || !r.IsInt() || !r.Num().IsInt64() {
+		return 0, false
+	}
+	return r.Num().Int64(), true
+}
+
+// ---------------------------------------------------------------------
+// Go literals from model values
+
+func (rc *replayCtx) goType(ty *Ty) string {
+	if ty.Go != nil {
+		return types.TypeString(ty.Go, rc.qual)
+	}
+	switch ty.K {
+	case TInt:
+		return "int"
+	case TFloat, TReal:
+		return "float64"
+	case TBool:
+		return "bool"
+	}
+	return "interface{}"
+}
+
+func floatLiteral(v *sexp) (string, bool) {
+	if v == nil {
+		return "", false
+	}
+	// XR values
+	if v.list == nil {
+		switch v.atom {
+		case "pinf":
+			return "math.Inf(1)", true
+		case "ninf":
+			return "math.Inf(-1)", true
+		case "nan":
+			return "math.NaN()", true
+		}
+	}
+	if v.list != nil && len(v.list) == 2 && v.list[0].atom == "fin" {
+		return floatLiteral(v.list[1])
+	}
+	r, ok := sexpRat(v)
+	if !ok {
+		return "", false
+	}
+	f, _ := r.Float64()
+	return strconv.FormatFloat(f, 'g', -1, 64), true
+}
+
+// goValue builds Go source for the value of term t of type ty.
+func (rc *replayCtx) goValue(t *Term, ty *Ty) (string, bool) {
+	x := rc.x
+	switch ty.K {
+	case TInt:
+		n, ok := rc.intValue(t)
+		if !ok {
+			return "", false
+		}
+		if ty.Go != nil {
+			return fmt.Sprintf("%s(%d)", rc.goType(ty), n), true
+		}
+		return fmt.Sprint(n), true
+	case TBV32:
+		v := rc.value(t)
+		if v == nil || !strings.HasPrefix(v.atom, "#x") {
+			return "", false
+		}
+		return "uint32(0x" + v.atom[2:] + ")", true
+	case TFloat, TReal:
+		s, ok := floatLiteral(rc.value(t))
+		if ok && strings.HasPrefix(s, "math.") {
+			rc.imports["math"] = true
+		}
+		if ok {
+			return "float64(" + s + ")", true
+		}
+		return "", false
+	case TBool:
+		v := rc.value(t)
+		if v == nil {
+			return "", false
+		}
+		return v.atom, true
+	case TStruct:
+		var fs []string
+		for i, f := range ty.Struct.Fields {
+			fv, ok := rc.goValue(x.structGet(t, ty, i), f.Ty)
+			if !ok {
+				return "", false
+			}
+			fs = append(fs, f.Name+": "+fv)
+		}
+		return rc.goType(ty) + "{" + strings.Join(fs, ", ") + "}", true
+	case TPtr:
+		a, ok := rc.intValue(t)
+		if !ok {
+			return "", false
+		}
+		if a == 0 {
+			return "(" + rc.goType(ty) + ")(nil)", true
+		}
+		hn, hs := ptrHeap(x.w.sortOf(ty.Elem, x.model))
+		h0, ok := x.heap0[hn]
+		if !ok {
+			h0 = x.sym.Const(hn+"@0", hs)
+		}
+		ev, ok := rc.goValue(Select(h0, t), ty.Elem)
+		if !ok {
+			return "", false
+		}
+		if ty.Elem.K == TStruct {
+			return "&" + ev, true
+		}
+		return "func() " + rc.goType(ty) + " { v := " + ev + "; return &v }()", true
+	case TSlice:
+		reg, ok1 := rc.intValue(slReg(t))
+		off, ok2 := rc.intValue(slOff(t))
+		ln, ok3 := rc.intValue(slLen(t))
+		cp, ok4 := rc.intValue(slCap(t))
+		if !ok1 || !ok2 || !ok3 || !ok4 {
+			return "", false
+		}
+		if reg == 0 {
+			return "(" + rc.goType(ty) + ")(nil)", true
+		}
+		if ln > cp {
+			cp = ln
+		}
+		key := fmt.Sprintf("%s:%d", x.w.sortOf(ty.Elem, x.model), reg)
+		ri := rc.regions[key]
+		if ri == nil {
+			ri = &regionInfo{varName: fmt.Sprintf("backing%d", len(rc.regions)), elem: ty.Elem, regTerm: slReg(t)}
+			rc.regions[key] = ri
+		}
+		if off+cp > ri.extent {
+			ri.extent = off + cp
+		}
+		return fmt.Sprintf("%s(%s[%d:%d:%d])", rc.goType(ty), ri.varName, off, off+ln, off+cp), true
+	case TOpaque:
+		return "", false
+	}
+	return "", false
+}
+
+func (rc *replayCtx) regionDecls() (string, bool) {
+	x := rc.x
+	var keys []string
+	for k := range rc.regions {
+		keys = append(keys, k)
+	}
+	sort.Strings(keys)
+	var b strings.Builder
+	for _, k := range keys {
+		ri := rc.regions[k]
+		hn, hs := elemHeap(x.w.sortOf(ri.elem, x.model))
+		h0, ok := x.heap0[hn]
+		if !ok {
+			h0 = x.sym.Const(hn+"@0", hs)
+		}
+		var els []string
+		for i := int64(0); i < ri.extent; i++ {
+			ev, ok := rc.goValue(Select(Select(h0, ri.regTerm), IntLit(i)), ri.elem)
+			if !ok {
+				// unconstrained cell: zero
+				ev = "0"
+				if ri.elem.K == TBool {
+					ev = "false"
+				}
+			}
+			els = append(els, ev)
+		}
+		fmt.Fprintf(&b, "\t%s := []%s{%s}\n", ri.varName, rc.goType(ri.elem), strings.Join(els, ", "))
+	}
+	return b.String(), true
+}
+
+// ---------------------------------------------------------------------
+
+func runCmd(dir string, timeout time.Duration, env []string, name string, args ...string) (string, error) {
+	ctx, cancel := context.WithTimeout(context.Background(), timeout)
+	defer cancel()
+	cmd := exec.CommandContext(ctx, name, args...)
+	cmd.Dir = dir
+	cmd.Env = append(os.Environ(), env...)
+	var out bytes.Buffer
+	cmd.Stdout = &out
+	cmd.Stderr = &out
+	err := cmd.Run()
+	return out.String(), err
+}
+
+// tryReplay builds and runs the replay test. model is unused (values are
+// obtained with get-value on a size-bounded re-solve).
+func tryReplay(e *Engine, o *Obligation, model, dir string) *ReplayResult {
+	x := o.X
+	if x == nil || x.fi == nil || x.entry == nil {
+		return nil
+	}
+	var res *ReplayResult
+	func() {
+		defer func() {
+			if r := recover(); r != nil {
+				res = &ReplayResult{Log: fmt.Sprintf("replay generation failed: %v", r)}
+			}
+		}()
+		for _, bound := range []int{3, 8, 40} {
+			r := replayWithBound(e, o, dir, bound)
+			if r != nil {
+				res = r
+				if r.Failed || !strings.Contains(r.Log, "size-bounded re-solve") {
+					return
+				}
+			}
+		}
+	}()
+	return res
+}
+
+func replayWithBound(e *Engine, o *Obligation, dir string, bound int) *ReplayResult {
+	x := o.X
+	sig := x.fi.Obj.Type().(*types.Signature)
+	pkg := x.fi.Pkg.Types
+	rc := &replayCtx{x: x, o: o, byTerm: map[string]*probe{}, bound: bound, pkgName: pkg.Name(), imports: map[string]bool{"testing": true},
+		helpers: map[string]string{}, regions: map[string]*regionInfo{}}
+	rc.qual = func(p *types.Package) string {
+		if p == pkg {
+			return ""
+		}
+		rc.imports[p.Path()] = true
+		return p.Name()
+	}
+	type param struct {
+		name string
+		v    *types.Var
+		val  Val
+	}
+	var params []param
+	var cons []*Term
+	add := func(v *types.Var) bool {
+		if v == nil || v.Name() == "" || v.Name() == "_" {
+			return true
+		}
+		val, ok := x.entryVals[v.Name()]
+		if !ok {
+			return false
+		}
+		if !rc.walkProbes(val.T, val.Ty, &cons, 0) {
+			return false
+		}
+		params = append(params, param{v.Name(), v, val})
+		return true
+	}
+	if sig.Recv() != nil && !add(sig.Recv()) {
+		return &ReplayResult{Log: "replay not generated: receiver type outside the replayable subset"}
+	}
+	for i := 0; i < sig.Params().Len(); i++ {
+		if !add(sig.Params().At(i)) {
+			return &ReplayResult{Log: "replay not generated: parameter " + sig.Params().At(i).Name() + " has a type outside the replayable subset (interfaces, functions, maps, nested slices)"}
+		}
+	}
+	// symbolic globals
+	type glob struct {
+		obj *types.Var
+		t   *Term
+		ty  *Ty
+	}
+	var globs []glob
+	for obj, g0 := range x.global0 {
+		v := obj.(*types.Var)
+		if len(g0.Args) != 0 || !strings.HasPrefix(g0.Op, "glob_") {
+			continue
+		}
+		ty := x.w.goTy(v.Type(), x.model.BV)
+		if ty.K != TInt && ty.K != TFloat && ty.K != TBool {
+			continue
+		}
+		rc.probe(g0)
+		globs = append(globs, glob{v, g0, ty})
+	}
+	sort.Slice(globs, func(i, j int) bool { return globs[i].obj.Name() < globs[j].obj.Name() })
+	// bound plain ints to keep allocations small
+	for _, p := range params {
+		if p.val.Ty.K == TInt {
+			cons = append(cons, Le(p.val.T, IntLit(1<<20)), Ge(p.val.T, IntLit(-(1 << 20))))
+		}
+	}
+
+	// size-bounded re-solve with get-value
+	script := o.Script(true)
+	k := strings.LastIndex(script, "(check-sat)")
+	var b strings.Builder
+	b.WriteString("(set-option :pp.decimal true)\n(set-option :pp.decimal_precision 17)\n")
+	b.WriteString(script[:k])
+	// declarations for probe-only constants
+	declared := map[string]bool{}
+	var extra []*Term
+	for _, p := range rc.probes {
+		extra = append(extra, p.term)
+	}
+	for _, d := range x.sym.DeclsFor(append(extra, cons...), "") {
+		name := strings.Fields(d)[1]
+		if !strings.Contains(script, "(declare-const "+name+" ") && !strings.Contains(script, "(declare-fun "+name+" ") && !declared[name] {
+			declared[name] = true
+			b.WriteString(d + "\n")
+		}
+	}
+	for _, c := range cons {
+		b.WriteString("(assert " + c.String() + ")\n")
+	}
+	b.WriteString("(check-sat)\n(get-value (")
+	for _, p := range rc.probes {
+		b.WriteString(p.term.String() + " ")
+	}
+	b.WriteString("))\n")
+	file := filepath.Join(dir, sanitize(o.Name)+fmt.Sprintf(".replay%d.smt2", bound))
+	os.WriteFile(file, []byte(b.String()), 0o644)
+	var out string
+	status := ""
+	for _, sp := range solvers[:2] {
+		st, o2, _ := runSolver(sp, file, 10)
+		if st == "sat" {
+			out, status = o2, st
+			break
+		}
+		status = st
+	}
+	if status != "sat" {
+		return &ReplayResult{Log: fmt.Sprintf("size-bounded re-solve (sizes <= %d) answered %s: no small counterexample", bound, status)}
+	}
+	ex := parseSexps(out)
+	if len(ex) < 2 || len(ex[1].list) != len(rc.probes) {
+		return &ReplayResult{Log: "could not parse get-value output"}
+	}
+	for i, p := range rc.probes {
+		pair := ex[1].list[i]
+		if len(pair.list) == 2 {
+			p.val = pair.list[1]
+		}
+	}
+
+	// build the test
+	var body strings.Builder
+	var input []string
+	var decls []string
+	for _, p := range params {
+		gv, ok := rc.goValue(p.val.T, p.val.Ty)
+		if !ok {
+			return &ReplayResult{Log: "replay not generated: could not build a Go value for parameter " + p.name + " from the model"}
+		}
+		decls = append(decls, fmt.Sprintf("\t%s := %s\n", p.name, gv))
+		input = append(input, p.name+" = "+gv)
+	}
+	regs, _ := rc.regionDecls()
+	body.WriteString(regs)
+	for _, d := range decls {
+		body.WriteString(d)
+	}
+	for _, g := range globs {
+		gv, ok := rc.goValue(g.t, g.ty)
+		if !ok {
+			continue
+		}
+		fmt.Fprintf(&body, "\tdefer func(v %s) { %s = v }(%s)\n\t%s = %s\n", rc.goType(g.ty), g.obj.Name(), g.obj.Name(), g.obj.Name(), gv)
+		input = append(input, g.obj.Name()+" = "+gv)
+	}
+	gc := &goCompiler{rc: rc, x: x, sig: sig, pkg: pkg}
+	// snapshots for old()
+	for _, p := range params {
+		body.WriteString(gc.snapshot(p.name, p.val.Ty))
+	}
+	// call
+	var args []string
+	for i := 0; i < sig.Params().Len(); i++ {
+		n := sig.Params().At(i).Name()
+		if n == "" || n == "_" {
+			args = append(args, "nil")
+			continue
+		}
+		if sig.Variadic() && i == sig.Params().Len()-1 {
+			n += "..."
+		}
+		args = append(args, n)
+	}
+	callee := x.fi.Obj.Name()
+	if sig.Recv() != nil {
+		callee = sig.Recv().Name() + "." + callee
+	}
+	var rnames []string
+	for i := 0; i < sig.Results().Len(); i++ {
+		rnames = append(rnames, fmt.Sprintf("gowpR%d", i))
+	}
+	for i, rn := range rnames {
+		fmt.Fprintf(&body, "\tvar %s %s\n\t_ = %s\n", rn, types.TypeString(sig.Results().At(i).Type(), rc.qual), rn)
+	}
+	body.WriteString("\tpanicked := func() (p interface{}) {\n\t\tdefer func() { p = recover() }()\n\t\t")
+	if len(rnames) > 0 {
+		body.WriteString(strings.Join(rnames, ", ") + " = ")
+	}
+	body.WriteString(callee + "(" + strings.Join(args, ", ") + ")\n\t\treturn nil\n\t}()\n")
+	body.WriteString("\tt.Logf(\"input: %s\", " + strconv.Quote(strings.Join(input, "; ")) + ")\n")
+	body.WriteString("\tif panicked != nil {\n\t\tt.Fatalf(\"GOWP-REPLAY-FAIL: the real function panicked: %v\", panicked)\n\t}\n")
+	// precondition and postconditions
+	gc.results = rnames
+	fr := &frame{sig: sig}
+	for i := 0; i < sig.Results().Len(); i++ {
+		rv := sig.Results().At(i)
+		if rv.Name() == "" || rv.Name() == "_" {
+			rv = types.NewVar(0, nil, fmt.Sprintf("result%d", i), rv.Type())
+		}
+		fr.resVars = append(fr.resVars, rv)
+	}
+	gc.resNames = resultNames(x.fc, fr)
+	gc.lets = x.fc.Lets
+	var checks strings.Builder
+	okAll := true
+	for _, r := range x.fc.Requires {
+		code, k, err := gc.compileTop(r.E, true)
+		if err != nil || k != kBool {
+			continue // cannot evaluate this precondition concretely: skip it
+		}
+		fmt.Fprintf(&checks, "\tif !(%s) {\n\t\tt.Skipf(\"GOWP-REPLAY-SKIP: model input does not satisfy the precondition concretely: %%s\", %s)\n\t}\n", code, strconv.Quote(r.Src))
+	}
+	nchecks := 0
+	for i, en := range x.fc.Ensures {
+		code, k, err := gc.compileTop(en.E, false)
+		if err != nil || k != kBool {
+			okAll = false
+			fmt.Fprintf(&checks, "\t// clause not compiled to Go: %s (%v)\n", en.Src, err)
+			continue
+		}
+		label := en.Label
+		if label == "" {
+			label = fmt.Sprintf("e%d", i+1)
+		}
+		nchecks++
+		fmt.Fprintf(&checks, "\tif !(%s) {\n\t\tt.Errorf(\"GOWP-REPLAY-FAIL: ensures [%s] violated on the real code: %%s\", %s)\n\t}\n", code, label, strconv.Quote(en.Src))
+	}
+	_ = okAll
+	// preconditions are evaluated on the entry state: emit before the call
+	full := body.String()
+	callIdx := strings.Index(full, "\tpanicked := func()")
+	// split: preconditions must be checked before the call (entry values)
+	var pre strings.Builder
+	var post strings.Builder
+	for _, line := range strings.SplitAfter(checks.String(), "\n") {
+		_ = line
+	}
+	// simple approach: preconditions compiled with old-mode names (snapshots), so they can run after the call
+	post.WriteString(checks.String())
+	_ = pre
+	_ = callIdx
+	// frame check
+	if x.fc.HasAssigns {
+		post.WriteString(gc.frameCheck(params2names(params), x.fc.Assigns))
+	}
+	var src strings.Builder
+	fmt.Fprintf(&src, "// Code generated by gowp: replay of obligation %s. DO NOT EDIT.\npackage %s\n\nimport (\n", o.Name, rc.pkgName)
+	rc.imports["reflect"] = true
+	rc.imports["math"] = true
+	for _, im := range sortedKeys(rc.imports) {
+		fmt.Fprintf(&src, "\t%q\n", im)
+	}
+	src.WriteString(")\n\nvar _ = math.NaN\nvar _ = reflect.DeepEqual\n\n")
+	src.WriteString(replayHelpers)
+	for _, h := range sortedKeys(gc.rc.helpers) {
+		src.WriteString(gc.rc.helpers[h] + "\n")
+	}
+	src.WriteString("func TestGowpReplay(t *testing.T) {\n")
+	src.WriteString(full)
+	src.WriteString(post.String())
+	src.WriteString("}\n")
+	testFile := filepath.Join(dir, sanitize(o.Name)+"_replay_test.go")
+	os.WriteFile(testFile, []byte(src.String()), 0o644)
+	// run with overlay
+	pkgDir := filepath.Dir(e.fset.Position(x.fi.Decl.Pos()).Filename)
+	target := filepath.Join(pkgDir, "zz_gowp_replay_test.go")
+	ov := fmt.Sprintf("{\"Replace\": {%q: %q}}", target, testFile)
+	ovFile := filepath.Join(dir, sanitize(o.Name)+".overlay.json")
+	os.WriteFile(ovFile, []byte(ov), 0o644)
+	outp, _ := runCmd(pkgDir, 90*time.Second, []string{"GOFLAGS=-mod=mod", "GOPROXY=off", "GOSUMDB=off", "GOTOOLCHAIN=local"},
+		"go", "test", "-overlay", ovFile, "-vet=off", "-count=1", "-timeout", "60s", "-run", "^TestGowpReplay$", "-v", ".")
+	r := &ReplayResult{TestFile: testFile}
+	r.Log = fmt.Sprintf("replay test %s (%d contract clauses evaluated in Go), overlay %s\ninput: %s\n%s", testFile, nchecks, ovFile, strings.Join(input, "; "), truncate(outp, 3000))
+	if strings.Contains(outp, "GOWP-REPLAY-FAIL") || strings.Contains(outp, "panic:") && strings.Contains(outp, "TestGowpReplay") {
+		r.Failed = true
+	}
+	return r
+}
+
+func params2names(ps interface{}) []string { return nil }
+
+const replayHelpers = `
+func gowpApprox(a, b float64) bool {
+	if math.IsNaN(a) || math.IsNaN(b) {
+		return math.IsNaN(a) && math.IsNaN(b)
+	}
+	if a == b {
+		return true
+	}
+	d := math.Abs(a - b)
+	m := math.Max(math.Abs(a), math.Abs(b))
+	return d <= 1e-9*m || d <= 1e-12
+}
+
+func gowpBool2(f func() bool) bool { return f() }
+`
